@@ -20,9 +20,21 @@ Exec(k) == /\ s.st = "run" /\ s.n < MaxSteps /\ InFetch(s.pc) /\ Opc(s) = k
            /\ last' = k
 OprIs(v) == Opc(s) = 13 /\ Opr(s) = v
 
-ILDAM == Exec(0)   ILDBM == Exec(1)   ISTAM == Exec(2)   ILDAC == Exec(3)   ILDBC == Exec(4)
-ILDAP == Exec(5)   ILDAI == Exec(6)   ILDBI == Exec(7)   ISTAI == Exec(8)   IBR   == Exec(9)
-IBRZ  == Exec(10)  IBRN  == Exec(11)  IPFIX == Exec(14)  INFIX == Exec(15)
+\* (each action states its own opcode so that TLC reports coverage per instruction)
+ILDAM == Opc(s) = 0 /\ Exec(0)
+ILDBM == Opc(s) = 1 /\ Exec(1)
+ISTAM == Opc(s) = 2 /\ Exec(2)
+ILDAC == Opc(s) = 3 /\ Exec(3)
+ILDBC == Opc(s) = 4 /\ Exec(4)
+ILDAP == Opc(s) = 5 /\ Exec(5)
+ILDAI == Opc(s) = 6 /\ Exec(6)
+ILDBI == Opc(s) = 7 /\ Exec(7)
+ISTAI == Opc(s) = 8 /\ Exec(8)
+IBR == Opc(s) = 9 /\ Exec(9)
+IBRZ == Opc(s) = 10 /\ Exec(10)
+IBRN == Opc(s) = 11 /\ Exec(11)
+IPFIX == Opc(s) = 14 /\ Exec(14)
+INFIX == Opc(s) = 15 /\ Exec(15)
 IBRB  == OprIs(0) /\ Exec(13)
 IADD  == OprIs(1) /\ Exec(13)
 ISUB  == OprIs(2) /\ Exec(13)
